@@ -60,6 +60,17 @@ def gen(seed: int, tier: str) -> dict[str, Any]:
         if k in ("start_task", "remove_task"):
             op["i"] = rng.randrange(nt)
         ops.append(op)
+    if rng.random() < 0.25:
+        # a task object that survives a registry stop: stop, start, start the same task again, then connection changes /
+        # removal / another stop have to treat it like any registered task
+        tb = rng.choice(grid[3:13]) + 0.0311
+        i = rng.randrange(nt)
+        ops.append({"t": round(tb, 6), "op": "reg_stop"})
+        ops.append({"t": round(tb + 0.05, 6), "op": "reg_start"})
+        ops.append({"t": round(tb + 0.1, 6), "op": "start_task", "i": i})
+        ops.append({"t": round(tb + 0.1 + rng.choice([0.3, 1.1, 2.7]), 6), "op": "conn", "state": "DISCONNECTED"})
+        ops.append({"t": round(tb + 3.2, 6), "op": "conn", "state": "CONNECTED"})
+        ops.append({"t": round(tb + rng.choice([3.9, 6.3]), 6), "op": rng.choice(["remove_task", "reg_stop"]), "i": i})
     ops.sort(key=lambda o: o["t"])
     # the statement says nothing about starting the registry twice or about tasks started on a stopped
     # registry (which does not listen to connection changes): such operations are not generated
